@@ -168,6 +168,15 @@ func c15structured(c *mc.Ctx, tags *[]string) poly.Sequence {
 	L := []int{12, 1, 70}[c.Dev("seq-length", 3)]
 	var s poly.Sequence
 	s.Sequence = gbSeq(L, 9)
+	// the coordinates of features are data of their own: they may lie beyond the bases the record carries
+	// (a record for a sub-region, or one without bases at all) and must survive the round trip as they are
+	locL := L
+	switch c.Dev("bases-vs-coordinates", 3) {
+	case 1:
+		locL = L + 25
+	case 2:
+		s.Sequence = ""
+	}
 	txt := func(label string) string { return c15texts[c.Dev(label, len(c15texts))] }
 	s.Description = txt("description")
 	s.SequenceHash, s.SequenceHashFunction = "v1_DLD_abc", "seqhash"
@@ -207,7 +216,7 @@ func c15structured(c *mc.Ctx, tags *[]string) poly.Sequence {
 	}
 	for i := 0; i < nf; i++ {
 		f := poly.Feature{Name: "seqid", Source: "src", Type: "gene", Score: ".", Strand: "+", Phase: "0", Sequence: "cached", SequenceHash: "h", Description: txt(fmt.Sprintf("f%d.description", i)), SequenceHashFunction: "seqhash"}
-		f.SequenceLocation = c15loc(c.Dev(fmt.Sprintf("f%d.location", i), 10), L)
+		f.SequenceLocation = c15loc(c.Dev(fmt.Sprintf("f%d.location", i), 10), locL)
 		if c.Dev(fmt.Sprintf("f%d.cached-text", i), 2) == 1 {
 			f.GbkLocationString = "join(1..2,3..4)"
 		}
